@@ -1,7 +1,8 @@
 """Write seeded/<id>/meta.json from the patch, the confirmation logs and the sweep results."""
 import json, os, re, glob
 ROOT = '/verif/seeded'
-INITIAL_MISS = {'C15-9': 'stopping the networking thread was not under contract: join() with a timeout that clears the send queue drops scheduled repetitions; the schedule and the send loop themselves were proved',
+INITIAL_MISS = {'C13-9': 'reads of the request stream were only exercised on in-memory streams (end-of-stream arrives at once) and no contract bounded the size of a read; the same gap hid the genuine Content-Length: -1 defect (fixed in 10256c0)',
+                'C15-9': 'stopping the networking thread was not under contract: join() with a timeout that clears the send queue drops scheduled repetitions; the schedule and the send loop themselves were proved',
                 'C18-9': 'the converters were under contract, the shared read path of typed attributes (which decides whether a present lexical value reaches its converter at all) only under C05',
                 'C01-9': 'buffering of early notifications (reload_all / _pre_check_report_ok) was proved under C06 only; C01 names it as its third mechanism but did not re-check it, and no bounded history delivers a report during the replay',
                 'C19-9': 'clients created by the provider / consumer factories were proved to carry the TLS context, but nothing stated that the factories are the only way a connection is opened (a direct urllib.request.urlopen in the WSDL reader bypassed them); the bounded TLS run only meets WSDL locations on the hosted endpoint',
